@@ -20,7 +20,10 @@ def tasks(tier):
                  kwargs=dict(ns=list(ns), tocombine=tc), timeout=600) for ns, tc in cases]
     mc = [Task('props.wire:run', name='C10/wire.misc_combine_pops.ns%s.i%s' % ('_'.join(map(str, ns)), '_'.join(map(str, ix))), fname='c10_misc_combine_pops',
                kwargs=dict(ns=list(ns), idx=ix), timeout=600) for ns, ix in [((2, 1), [0, 1]), ((1, 2, 1), [0, 1]), ((2, 1, 1), [0, 2]), ((1, 1, 2), [1, 2])]]
-    return [Task('props.wire:run', name='C10/wire.c10_reorder_pops', fname='c10_reorder_pops', timeout=300)] + comb + mc + bounded_tasks('C10', tier)
+    mg = [Task('props.wire:run', name='C10/wire.%s.ns%s.%s' % ('filter_pops' if vf_ else 'marginalize', '_'.join(map(str, ns)), '_'.join(map(str, ov))), fname='c10_marginalize',
+               kwargs=dict(ns=list(ns), over=list(ov), via_filter=vf_), timeout=300)
+          for ns, ov, vf_ in (((2, 1), (0,), False), ((1, 2, 1), (2, 0), False), ((1, 2, 1), (1,), False), ((1, 1, 2, 1), (3, 1), False), ((1, 2, 1), (3, 1), True), ((2, 1, 1), (2,), True))]
+    return [Task('props.wire:run', name='C10/wire.c10_reorder_pops', fname='c10_reorder_pops', timeout=300)] + comb + mc + mg + bounded_tasks('C10', tier)
 
 
 MANIFEST_ENTRY = dict(
